@@ -19,7 +19,9 @@ MANIFEST = {
             "code checks every clause of the property numerically, including the Hankel transform of the spectrum and the "
             "Kolmogorov limit, and supplies failing inputs.",
     "note": "Partial: H1 and H2 are classical facts about K_5/6 that Mathlib 4.33 cannot state (no Bessel functions); they are "
-            "theorem hypotheses (not axioms), satisfiable (non-vacuity examples), and the clauses that rest on them - as well as "
+            "theorem hypotheses (not axioms), jointly satisfiable by one kv (H1_H2_jointly_satisfiable), and the clauses that rest on "
+            "them - in particular positive semi-definiteness, whose theorem cov_posSemidef assumes H2, i.e. its own conclusion up to a "
+            "non-negative factor, and which is therefore carried by the eigenvalue oracle only - as well as "
             "the Hankel-transform identity, the limit L0->infinity and the closeness of the published constants "
             "(0.17253 vs kappa_C, 0.0863, 6.88, 0.023) - are evaluated numerically by the oracle only. Trusted: Lean kernel + "
             "propext/Classical.choice/Quot.sound; Mathlib's Real.rpow/Gamma/pi as the meaning of **, scipy.special.gamma, "
@@ -31,7 +33,7 @@ REQUIRED = ["copies_agree", "psd_copies_agree", "kolmogorov_copies", "D_zero", "
             "cov_normal_form", "vk_dimensionless", "shape_identity_normal", "shape_identity", "r0_scaling_vk",
             "r0_scaling_cov", "r0_scaling_kolmogorov", "r0_scaling_psd", "psd_nonneg", "D_nonneg", "D_le_sat",
             "D_monotone", "D_tendsto_zero", "D_saturates", "cov_bounds", "cov_antitone", "cov_tendsto_zero",
-            "covIdeal_tendsto_covZero", "cov_posSemidef", "yao_zero", "yao_tendsto_kolmogorov",
+            "covIdeal_tendsto_covZero", "cov_posSemidef", "H1_H2_jointly_satisfiable", "yao_zero", "yao_tendsto_kolmogorov",
             "saturation_constant", "kolmogorov_constants_close", "D_eq_twice_cov_diff", "sat_eq_twice_variance",
             "kolmogorov_monotone", "psd_antitone", "covExt_posSemidef", "cov_eq_covExt"]
 T1_NAMES = ["phase_covariance", "structure_function_vk", "structure_function_kolmogorov", "kl_stf_kolmogorov",
@@ -39,9 +41,29 @@ T1_NAMES = ["phase_covariance", "structure_function_vk", "structure_function_kol
 
 KD = 0.17253                      # the constant of structure_function_vk / stf_vonKarman
 EPS_COV = 1e-40                   # phase_covariance's own offset
-# tolerances (see `run`): TC for anything that goes through phase_covariance (DESIGN: float32 inside -> 1e-5 of C0),
-# TD for double-precision pipelines, relative to the saturation value / variance
-TC, TD = 1e-5, 1e-9
+# tolerances (see `run`): TC for anything that goes through phase_covariance, as a fraction of C0.  phase_covariance works in
+# double precision since fix C08-phase-covariance-large-L0 (the 1e-5 of the float32 era is gone): calibrated on the repaired
+# tree over seeds 0-9 — Lean-vs-python 2.1e-14, scalar-vs-array 4e-16, range 1.2e-15, shape identity 8e-15 (of 4 TC), monotone
+# 3.3e-15 (TM), smallest eigenvalue -2.1e-16 n (TE) — so 1e-10 leaves >= 4000x and still rejects single precision (6e-8).
+# TD for the other double-precision pipelines, relative to the saturation value / variance
+TC, TD = 1e-10, 1e-9
+TM, TE = 1e-10, 1e-10
+
+
+WORST = {}
+
+
+def track(key, value, tol):
+    """remember the largest observed value of a toleranced quantity as a fraction of its tolerance (reported in the notes)"""
+    if tol > 0 and value == value:
+        WORST[key] = max(WORST.get(key, 0.0), float(value) / float(tol))
+
+
+def fscalar(x):
+    """value of a scalar call as a float; a function that answers a scalar with a 1-element array is reported by the
+    elementwise clause (shape != ()), here its single value is used so that the other clauses can still be evaluated"""
+    a = numpy.asarray(x, dtype=float)
+    return float(a.reshape(-1)[0]) if a.size == 1 else float("nan")
 
 
 def logu(rng, lo, hi):
@@ -111,7 +133,7 @@ def correspondence(chk, n):
         r0, L0 = gen_atm(rng)
         A = (L0 / r0) ** (5. / 3)
         sat, c0 = KD * A, 0.5 * kappa_c() * A
-        shape = tuple(rng.randint(1, 4) for _ in range(rng.choice([0, 1, 1, 2])))
+        shape = tuple(rng.randint(1, 4) for _ in range(rng.choice([0, 1, 1, 2, 3])))
         cnt = int(numpy.prod(shape)) if shape else 1
         rs, classes = zip(*[gen_r(rng, L0) for _ in range(cnt)])
         for c in classes:
@@ -144,8 +166,8 @@ def correspondence(chk, n):
             op("m", "cideal", r + EPS_COV, r0, L0); checks.append((c, 0.0, TC * c0, "normal form covIdeal vs phase_covariance(%r,%r,%r)" % (r, r0, L0)))
         # (c) C0 and the saturation value of the theorems vs the real code at r = 0 and r >> L0
         with numpy.errstate(all="ignore"):
-            cz = float(turb.phase_covariance(0., r0, L0))
-            dinf = float(sc.structure_function_vk(1e5 * L0, r0, L0))
+            cz = fscalar(turb.phase_covariance(0., r0, L0))
+            dinf = fscalar(sc.structure_function_vk(1e5 * L0, r0, L0))
         op("m", "c0", r0, L0); checks.append((cz, 0.0, TC * c0, "covZero vs phase_covariance(0,%r,%r)" % (r0, L0)))
         op("m", "sat", r0, L0); checks.append((dinf, 1e-12, 0.0, "sfSat vs structure_function_vk(1e5 L0,%r,%r)" % (r0, L0)))
     ans = common.run_driver(lines, "C08")
@@ -291,7 +313,10 @@ def oracle(chk, n, n_hankel, n_psd_mat):
             for i in (rng.randrange(len(r)), rng.randrange(len(r))):
                 s = numpy.asarray(call(f, float(r[i]), *extra), dtype=float)
                 at = TC * c0 if fn == "phase_covariance" else 1e-14 * (sat if fn != "stf_vonKarman" else KD * L0 ** (5. / 3))
+                if fn == "phase_covariance" and s.shape == ():
+                    track("elementwise:phase_covariance", abs(float(s) - float(v[i])), 1e-13 * abs(float(v[i])) + at)
                 if s.shape != () or not common.close(float(s), float(v[i]), 1e-13, at):
+                    s = s.reshape(-1)[:1] if s.size else numpy.array([float("nan")])
                     bad("elementwise:" + fn, "%s(%r) as a scalar gives %r, inside an array %r" % (fn, float(r[i]), s.tolist(), float(v[i])),
                         fn=fn, r=float(r[i]), **rep)
             v2 = numpy.asarray(call(f, r, *extra), dtype=float)
@@ -324,10 +349,11 @@ def oracle(chk, n, n_hankel, n_psd_mat):
                 "the rounding of their constants (or not by one constant factor)" % (float(Kk[i]), float(Ko[i]), float(r[i]), r0), r=float(r[i]), r0=r0)
         # ---- structure function = 2 (C(0) - C(r)).  Constant-free shape: D(r)/D(inf) = (C(0) - C(r))/C(0) to the
         #      precision of phase_covariance; and D(inf) = 2 C(0) to the rounding of the published constant 0.17253
-        dinf = float(call(sc.structure_function_vk, 1e5 * L0, r0, L0))
+        dinf = fscalar(call(sc.structure_function_vk, 1e5 * L0, r0, L0))
         twice = 2 * (C[0] - C)
         e = numpy.abs(D * 2 * C[0] - dinf * twice)
         i = int(numpy.argmax(e))
+        track("shape:D/Dinf=(C0-C)/C0", e[i], 4 * TC * c0 * dinf)
         if not e[i] <= 4 * TC * c0 * dinf:
             bad("shape:D/Dinf=(C0-C)/C0", "D(r)/D(inf) = %r but (C(0) - C(r))/C(0) = %r at r=%r r0=%r L0=%r"
                 % (float(D[i] / dinf), float(twice[i] / (2 * C[0])), float(r[i]), r0, L0), r=float(r[i]), **rep)
@@ -335,6 +361,7 @@ def oracle(chk, n, n_hankel, n_psd_mat):
         i = int(numpy.argmax(e))
         # absolute slack 1e-9·C(0): the binary64 covariance resolves C(0) − C(r) to ~1e-15·C(0); a covariance that is flat near
         # zero (or only single precision) makes D = 2(C(0) − C(r)) wrong by 100 % at small separations while staying within 1e-5·C(0)
+        track("shape:D=2(C0-C)", e[i], 1e-9 * c0)
         if not e[i] <= 1e-9 * c0:
             bad("shape:D=2(C0-C)", "D(r) = %r but 2 (C(0) - C(r)) = %r at r=%r r0=%r L0=%r (more than the rounding of the published constants)"
                 % (float(D[i]), float(twice[i]), float(r[i]), r0, L0), r=float(r[i]), **rep)
@@ -346,13 +373,15 @@ def oracle(chk, n, n_hankel, n_psd_mat):
                 % (float(D[i]), float(r[i]), float(D[i + 1]), float(r[i + 1]), r0, L0), r=[float(r[i]), float(r[i + 1])], **rep)
         dc = numpy.diff(C)
         i = int(numpy.argmax(dc))
-        if dc[i] > 1e-6 * c0:
+        track("monotone:phase_covariance", dc[i], TM * c0)
+        if dc[i] > TM * c0:
             bad("monotone:phase_covariance", "C increases from %r at r=%r to %r at r=%r (r0=%r L0=%r)"
                 % (float(C[i]), float(r[i]), float(C[i + 1]), float(r[i + 1]), r0, L0), r=[float(r[i]), float(r[i + 1])], **rep)
         if D.min() < -1e-12 * sat or D.max() > dinf * (1 + 1e-12):
             i = int(numpy.argmax(numpy.abs(D - sat / 2)))
             bad("range:structure_function_vk", "D(%r) = %r outside [0, D(inf) = %r]" % (float(r[i]), float(D[i]), dinf),
                 r=float(r[i]), **rep)
+        track("range:phase_covariance", max(-C.min(), C.max() - c0), TC * c0)
         if C.min() < -TC * c0 or C.max() > c0 * (1 + TC):
             i = int(numpy.argmax(numpy.abs(C - c0 / 2)))
             bad("range:phase_covariance", "C(%r) = %r outside [0, C0 = %r]" % (float(r[i]), float(C[i]), c0), r=float(r[i]), **rep)
@@ -363,6 +392,8 @@ def oracle(chk, n, n_hankel, n_psd_mat):
                 r=float(r[i]), **rep)
         if not abs(dinf / (2 * 0.0863 * A) - 1) <= 1e-3:
             bad("saturation:0.0863", "D(r >> L0) = %r is not twice 0.0863 (L0/r0)^(5/3) = %r to the rounding of that figure" % (dinf, 2 * 0.0863 * A), **rep)
+        if far.any():
+            track("saturation:phase_covariance", numpy.abs(C[far]).max(), TC * c0)
         if far.any() and not numpy.all(numpy.abs(C[far]) <= TC * c0):
             bad("saturation:phase_covariance", "C(r >= 30 L0) does not vanish: %r" % float(numpy.abs(C[far]).max()), **rep)
         # continuity at zero: D at the smallest positive separations is as small as the 5/3 law says
@@ -381,6 +412,8 @@ def oracle(chk, n, n_hankel, n_psd_mat):
             tol_abs = TC * c0 * s if fn == "phase_covariance" else 1e-300
             e = numpy.abs(v2 - s * v) - 1e-11 * numpy.abs(s * v)
             i = int(numpy.argmax(e))
+            if fn == "phase_covariance":
+                track("scaling:phase_covariance", e[i], tol_abs)
             if not e[i] <= tol_abs:
                 bad("scaling:" + fn, "%s(r, c r0) = %r but c^(-5/3) %s(r, r0) = %r at r=%r r0=%r c=%r L0=%r"
                     % (fn, float(v2[i]), fn, float(s * v[i]), float(r[i]), r0, c, L0), fn=fn, r=float(r[i]), c=c, **rep)
@@ -406,7 +439,7 @@ def oracle(chk, n, n_hankel, n_psd_mat):
         chk.oracle_cases += 1
         r0 = logu(rng, 0.05, 1.0)
         rr = 1e-7 * L0
-        ratio = float(call(sc.structure_function_vk, rr, r0, L0)) / float(call(sc.structure_function_kolmogorov, rr, r0))
+        ratio = fscalar(call(sc.structure_function_vk, rr, r0, L0)) / fscalar(call(sc.structure_function_kolmogorov, rr, r0))
         chk.case(("oracle-limit", L0, r0))
         if not abs(ratio - 1) <= 7.5e-3:
             bad("kolmogorov-limit:L0=1e6", "structure_function_vk / Kolmogorov = %r at r=%r r0=%r L0=%r" % (ratio, rr, r0, L0), r=rr, r0=r0, L0=L0)
@@ -441,7 +474,8 @@ def oracle(chk, n, n_hankel, n_psd_mat):
                 points=P.tolist(), r0=r0, L0=L0)
             continue
         lam = numpy.linalg.eigvalsh(0.5 * (M + M.T))
-        if not (numpy.abs(M - M.T).max() <= 1e-12 * c0 and lam.min() >= -1e-6 * len(P) * c0):
+        track("posdef:phase_covariance", -lam.min(), TE * len(P) * c0)
+        if not (numpy.abs(M - M.T).max() <= 1e-12 * c0 and lam.min() >= -TE * len(P) * c0):
             bad("posdef:phase_covariance", "covariance matrix of %d points (%s, scale %r) has smallest eigenvalue %r (C0 = %r), asymmetry %r"
                 % (len(P), kind, scale, float(lam.min()), c0, float(numpy.abs(M - M.T).max())), points=P.tolist(), r0=r0, L0=L0)
 
@@ -468,7 +502,7 @@ def oracle(chk, n, n_hankel, n_psd_mat):
             ratios = []
             for q in (0.003, 0.05, 0.7, 6.0):
                 rr = q * L0
-                dv = float(call(sc.structure_function_vk, rr, r0, L0))
+                dv = fscalar(call(sc.structure_function_vk, rr, r0, L0))
                 dp = sf_from_psd(psds["ft_phase_screen"], rr, r0, L0)
                 ratios.append(dp / dv)
             if not (max(ratios) - min(ratios) <= 1e-5 and abs(ratios[0] - 1) <= 1e-2):
@@ -477,6 +511,77 @@ def oracle(chk, n, n_hankel, n_psd_mat):
             elif it == 0:
                 chk.notes.append("Hankel transform of PSD_phi / structure_function_vk = %.6f (constant in r to %.1e): the rounding of 0.023"
                                  % (ratios[0], max(ratios) - min(ratios)))
+
+
+def input_classes(chk, n):
+    """the same separations / atmosphere handed over in the other forms callers use — integer arrays and Python / NumPy
+    integer scalars for r, integer r0 and L0 (the stf_vonKarman docstring suggests L0 = 3), 2-D and 3-D arrays, non-contiguous
+    views (strided, reversed, transposed, broadcast, Fortran order) — must give the values of the plain float64 1-D call"""
+    from aotools.turbulence import turb, slopecovariance as sc
+    from aotools.functions import karhunenLoeve as kl
+    rng = chk.rng
+    fns = [("structure_function_vk", lambda r, r0, L0: sc.structure_function_vk(r, r0, L0)),
+           ("phase_covariance", lambda r, r0, L0: turb.phase_covariance(r, r0, L0)),
+           ("stf_vonKarman", lambda r, r0, L0: kl.stf_vonKarman(r, L0)),
+           ("structure_function_kolmogorov", lambda r, r0, L0: sc.structure_function_kolmogorov(r, r0)),
+           ("stf_kolmogorov", lambda r, r0, L0: kl.stf_kolmogorov(r))]
+
+    def views(x):
+        """(class, array holding the same values as the 1-D float64 array x — 24 elements — in another layout)"""
+        big = numpy.empty(2 * x.size, dtype=x.dtype)
+        big[::2] = x
+        big[1::2] = -1.0 if x.dtype.kind == "f" else 7
+        rev = x[::-1].copy()
+        out = [("2-D", x.reshape(4, 6)), ("3-D", x.reshape(2, 3, 4)), ("strided", big[::2]), ("reversed", rev[::-1]),
+               ("transposed", numpy.ascontiguousarray(x.reshape(4, 6).T).T), ("fortran", numpy.asfortranarray(x.reshape(4, 6))),
+               ("column-of-2-D", numpy.stack([x, x + 1], -1)[:, 0]), ("broadcast", numpy.broadcast_to(x, (3, x.size)))]
+        return out
+
+    for it in range(n):
+        chk.oracle_cases += 1
+        L0i = rng.choice([3, 3, 20, 25, 100])
+        r0i = rng.choice([1, 1, 2])
+        ri = numpy.array([0, 0, 1, 2, 3, 5] + [rng.randint(0, 4 * L0i) for _ in range(18)], dtype=numpy.int64)
+        rng.shuffle(ri)
+        rf = ri.astype(float)
+        r0f, L0f = gen_atm(rng)
+        rfrac = numpy.array([gen_r(rng, L0f)[0] for _ in range(24)])
+        chk.case(("input-classes", r0i, L0i, ri.tolist(), r0f, L0f), sample={"r0": r0i, "L0": L0i, "r": ri[:6].tolist()} if it < 1 else None)
+        for fn, f in fns:
+            def ev(r, r0, L0):
+                with numpy.errstate(all="ignore"):
+                    return numpy.asarray(f(r, r0, L0), dtype=float)
+
+            def same(cls, got, want, **rep):
+                chk.count("input-class:" + cls)
+                if got.shape != want.shape or not numpy.allclose(got, want, rtol=1e-13, atol=0, equal_nan=False):
+                    w = None if got.shape != want.shape else int(numpy.argmax(~numpy.isclose(got, want, rtol=1e-13, atol=0)))
+                    chk.fail("input-class:%s:%s" % (fn, cls), "%s with %s returns %s, the plain float64 call %s (r0=%r L0=%r)"
+                             % (fn, cls, "shape %s" % (got.shape,) if w is None else repr(float(got.reshape(-1)[w])),
+                                "shape %s" % (want.shape,) if w is None else repr(float(want.reshape(-1)[w])), rep.get("r0"), rep.get("L0")),
+                             dict(fn=fn, input_class=cls, **rep))
+            # -- integer-valued separations and atmosphere
+            ref = ev(rf, float(r0i), float(L0i))
+            rep = dict(r0=r0i, L0=L0i, r=ri.tolist())
+            for cls, arr in (("r:int64-array", ri), ("r:int32-array", ri.astype(numpy.int32)), ("r:uint16-array", ri.astype(numpy.uint16))):
+                keep = arr.copy()
+                same(cls, ev(arr, float(r0i), float(L0i)), ref, **rep)
+                if not numpy.array_equal(arr, keep):
+                    chk.fail("inplace:%s" % fn, "%s modified its integer separation array in place" % fn, dict(fn=fn, **rep))
+            same("r0,L0:int", ev(rf, r0i, L0i), ref, **rep)
+            same("r0,L0:numpy.int64", ev(rf, numpy.int64(r0i), numpy.int64(L0i)), ref, **rep)
+            same("r,r0,L0:all-int", ev(ri, r0i, L0i), ref, **rep)
+            for k in (0, 1, rng.randrange(24)):
+                for cls, conv in (("r:int-scalar", int), ("r:numpy.int64-scalar", numpy.int64), ("r:0-d-int-array", numpy.array)):
+                    same(cls, ev(conv(int(ri[k])), r0i, L0i), ref[k], **dict(rep, r=int(ri[k])))
+            # -- layouts, on generic (fractional) and on integer separations
+            for x, a, b, rp in ((rfrac, r0f, L0f, dict(r0=r0f, L0=L0f, r=rfrac.tolist())), (ri, r0i, L0i, rep)):
+                base = ev(x.astype(float), float(a), float(b))
+                for cls, v in views(x):
+                    want = numpy.broadcast_to(base, v.shape) if cls == "broadcast" else base.reshape(v.shape)
+                    assert numpy.array_equal(numpy.asarray(v, dtype=float), numpy.broadcast_to(x.astype(float), v.shape).reshape(v.shape)
+                                             if cls == "broadcast" else x.astype(float).reshape(v.shape))
+                    same("layout:" + cls, ev(v, a, b), want, **rp)
 
 
 def h1_numeric(chk):
@@ -494,14 +599,21 @@ def run(chk):
     chk.rule = ("T1 self-check: Float instantiation of the regenerated definitions vs the Python functions, rel 1e-7 (Bessel quadrature); "
                 "correspondence: regenerated definitions and theorem normal forms at Float vs the real functions on scalars/arrays "
                 "(r = 0, tiny, < L0, > L0; L0 up to 3e7): |lean - python| <= 1e-9 |value| + 1e-12 saturation (structure functions), "
-                "<= 1e-5 C0 (phase_covariance, float32 heritage), 1e-12 relative (closed forms, constants); oracle: property clauses on "
-                "the real code with the tolerances named in each failure key; distinct = distinct (r0, L0, separations) tuples")
+                "<= 1e-10 C0 (phase_covariance; observed 2e-14 C0), 1e-12 relative (closed forms, constants); oracle: property clauses on "
+                "the real code with the tolerances named in each failure key; every clause that goes through phase_covariance uses 1e-10 C0 "
+                "(double precision; observed <= 8e-15 C0 over 10 seeds, worst fractions in the notes), so single-precision arithmetic inside it "
+                "(6e-8) is a violation; input classes: float64/float32/int arrays of rank 0-3, Python/NumPy int scalars, int r0/L0, strided / "
+                "reversed / transposed / broadcast views; distinct = distinct (r0, L0, separations) tuples")
     chk.assumptions = [
         "H1 (x^(5/6) K_5/6(x) antitone on (0,inf), -> 2^(-1/6) Gamma(5/6) at 0+, -> 0 at inf) is a theorem hypothesis of D_nonneg, D_le_sat, "
         "D_monotone, D_tendsto_zero, D_saturates, cov_bounds, cov_antitone, cov_tendsto_zero; for the real Bessel function it is checked "
         "numerically only (oracle monotonicity/saturation clauses; grid check of scipy's kv in the notes)",
-        "H2 (the radial kernel is positive definite) is a theorem hypothesis of cov_posSemidef; numerically: eigenvalues of covariance "
-        "matrices of generated planar point sets (clouds, grids, lines, clusters, duplicated points)",
+        "NOT PROVED: 'every matrix of phase covariances between arbitrary points is positive semi-definite'. cov_posSemidef / "
+        "covExt_posSemidef ASSUME H2 = PosDefKernel (the radial kernel h(2 pi (r + 1e-40)/L0) is positive definite on the point space), "
+        "which is the conclusion itself up to the non-negative factor C0/h0: the theorems only transport the property from h to the coded "
+        "covariance. The clause is carried by the eigenvalue oracle ONLY: smallest eigenvalue of covariance matrices of generated planar point "
+        "sets (clouds, grids, lines, clusters, duplicated points; 2-40 points) >= -1e-10 n C0 (observed: -2e-16 n C0). H1 and H2 are jointly "
+        "satisfiable by one kv (H1_H2_jointly_satisfiable, on the line), i.e. the hypothesis set is consistent, nothing more",
         "Hankel-transform identity D(r) = 4 pi int f PSD(f) (1 - J0(2 pi f r)) df: not provable in Mathlib (no Bessel J0); evaluated by "
         "quadrature on the real PSD expression; holds with the constant ratio 1.0051 (rounding of 0.023)",
         "Kolmogorov limit L0 -> infinity: numeric only (ratio to 6.88 (r/r0)^(5/3) follows 1 - 1.485 (r/L0)^(1/3) to 1e-4); proved only "
@@ -522,7 +634,11 @@ def run(chk):
         except common.LeanError as ex:
             chk.broke("translator", "generated Lean does not compile / run", str(ex))
     h1_numeric(chk)
+    WORST.clear()
     if quick:
         oracle(chk, 250, 10, 150)
     else:
         oracle(chk, 20000, 300, 10000)
+    input_classes(chk, 6 if quick else 200)
+    chk.notes.append("oracle: worst observed value as a fraction of its tolerance, per phase_covariance clause: %s"
+                     % json.dumps({k: float("%.2e" % v) for k, v in sorted(WORST.items())}))
